@@ -1163,7 +1163,7 @@ Proof.
   destruct (P6 eq_refl) as [Ch6 Fr6].
   destruct (set_file_none_nf st6 o (proj1 G6)) as [N7 [[Ne7 S7]|[E7 S7]]];
     destruct (set_file st6 o None) as [[st7 x7] e7]; cbn [fst snd] in *.
-  - split; [split; [exact N7|rewrite S7; apply G6]|]. intros X. exfalso. apply Ne7. exact X.
+  - split; [split; [exact N7|rewrite S7; apply G6]|]. intros X. exfalso. apply Ne7. destruct e7; [discriminate X|reflexivity].
   - split; [split; [exact N7|rewrite S7; apply wf_delete; [apply G6|exact Do|exact Ch6]]|].
     intros _ _. split.
     + rewrite S7, lookup_remove_key, str_eqb_refl. reflexivity.
